@@ -114,7 +114,12 @@ fn expression_strigify_write<'s, W: FmtWrite>(
             stringifier.write_token(&value, None, location)?;
         }
         Expression::LitFloat { value, location } => {
-            let value = value.to_string();
+            let value = if value.is_infinite() {
+                // `inf` would be parsed back as an identifier
+                "1e999".to_string()
+            } else {
+                value.to_string()
+            };
             stringifier.write_token(&value, None, location)?;
         }
         Expression::LitBool { value, location } => {
